@@ -946,6 +946,9 @@ def _catalogue_prepared(seed, idx, n, tier):
     cs = [c for c in catalogue.all_cases(crng, cx=False) if c.get("argnum") is not None and c["form"] != "special" and c.get("point", "regular") == "regular"]
     if tier == "thorough":
         cs += [c for c in catalogue.all_cases(crng, cx=True) if c.get("argnum") is not None and c["form"] != "special"]
+    # kind / precision mixes (float16/32, complex64 next to float64 of the same shapes): anything cached per
+    # shape must not leak precision or kind from one call into the next
+    cs += [c for c in P.extra_struct_cases(crng) if c.get("argnum") is not None][:: (3 if tier == "quick" else 1)]
     mine = [c for k, c in enumerate(cs) if k % n == idx]
     prepared = []
     for k, c in enumerate(mine):
